@@ -16,9 +16,10 @@ import (
 )
 
 var c13Cfgs = []hostCfg{
-	{"", -1, true, false, false}, {"lab", -1, true, true, false}, {"", 1, true, false, false}, {"lab", 1, true, true, false},
-	{"", 0, true, false, false}, {"lab", 0, true, false, false}, {"", 1, false, false, false}, {"lab", 0, false, true, false},
-	{"lab", -1, true, false, true}, {"lab", 1, true, true, true},
+	{"", -1, true, false, false, false}, {"lab", -1, true, true, false, false}, {"", 1, true, false, false, false}, {"lab", 1, true, true, false, false},
+	{"", 0, true, false, false, false}, {"lab", 0, true, false, false, false}, {"", 1, false, false, false, false}, {"lab", 0, false, true, false, false},
+	{"lab", -1, true, false, true, false}, {"lab", 1, true, true, true, false},
+	{"lab", 1, true, false, false, true},
 }
 
 type c13State struct {
